@@ -7,7 +7,8 @@
     Every statement is for ALL graphs of ALL sizes.  Non-vacuity examples: Dag/DagExamples.v. *)
 From Coq Require Import List Bool Arith Permutation Relations.
 From Leaspy Require Import Dag.DagModel Dag.DagProofs Dag.DagExamples Dag.GraphLit.
-From LeaspyGen Require Import GenGraphs.
+From Leaspy Require Import Dag.FromDict Dag.FromDictProofs Dag.FromDictExamples Dag.FromDictSrc Dag.FromDictTie.
+From LeaspyGen Require Import GenGraphs GenC15FromDict GenC15Defs.
 Import ListNotations.
 
 (** An accepted graph is listed so that every node appears exactly once and strictly after everything it
@@ -86,3 +87,119 @@ Theorem C15_shipped_graphs :
                      end) shipped = true.
 Proof. vm_compute. reflexivity. Qed.
 Print Assumptions C15_shipped_graphs.
+
+(** * Extension 4: from the variable DEFINITIONS to the graph ([VariablesDAG.from_dict], Dag/FromDict.v)
+
+    [from_dict ds] models [VariablesDAG.from_dict]: the direct ancestors of a variable are the named parameters of the
+    function defining it ([get_named_parameters]: [NamedInputFunction.parameters], or ALL the parameters of a function whose
+    parameters are all keyword-only), independent variables have none; then the key-set check, then [build].
+    [is_param_of ds p v], [named_param], [bad_signature], [depends ds := clos_trans (is_param_of ds)] are the specification
+    vocabulary.  Non-vacuity: Dag/FromDictExamples.v. *)
+
+(** Which callables are accepted and what their named parameters are: all keyword-only (a default changes nothing) -> every
+    name, in order; any other kind -> ValueError listing the offending names; a NamedInputFunction -> its assigned names. *)
+Theorem C15_named_parameters :
+  (forall s ps, get_named_parameters (CPlain s) = GnpOk ps <->
+       (forall prm, In prm s -> p_kind prm = KwOnly) /\ ps = map p_name s) /\
+  (forall s, (exists bad, get_named_parameters (CPlain s) = GnpValueError bad) <-> exists prm, In prm s /\ p_kind prm <> KwOnly) /\
+  (forall n, get_named_parameters (CNamed n) = GnpOk (nif_parameters n)) /\
+  (forall f ps kws, get_named_parameters (CNamed (bound_to f ps kws)) = GnpOk ps).
+Proof. split; [exact gnp_plain_ok|]. split; [exact gnp_plain_refused|]. split; [exact gnp_named | exact bound_to_parameters]. Qed.
+Print Assumptions C15_named_parameters.
+
+(** The graph built from accepted definitions has exactly the edges (p -> v) for p a named parameter of v's function: none
+    dropped, none invented; [direct_children] is its exact inverse.   Example: [ex_from_dict_ok], [ex_default_is_parent]. *)
+Theorem C15_from_dict_edges : forall (ds : list vdef) (r : dag), from_dict ds = FOk r ->
+  exists g, direct_ancestors ds = Some g /\ nnodes g = length ds /\ build g = Ok r /\
+    (forall p v, edge g p v <-> is_param_of ds p v) /\
+    length (dchildren r) = length ds /\
+    (forall p, p < length ds -> NoDup (nth p (dchildren r) []) /\
+        forall v, In v (nth p (dchildren r) []) <-> is_param_of ds p v).
+Proof. exact from_dict_edges_exact. Qed.
+Print Assumptions C15_from_dict_edges.
+
+(** A function with a parameter that is not keyword-only is refused when the definition is constructed (no graph is ever
+    built), and only then.   Example: [ex_bad_signature], [ex_bad_signature_refused]. *)
+Theorem C15_from_dict_refuses_signature : forall ds, bad_signature ds <-> from_dict ds = FErr FSignature.
+Proof. exact from_dict_refuses_signature. Qed.
+Print Assumptions C15_from_dict_refuses_signature.
+
+(** A definition whose function has a parameter that is no variable is refused as an unknown node — the FIRST check of
+    [build], before any ordering is attempted — and that error means exactly this.   Example: [ex_unknown_hyps], [ex_unknown_refused]. *)
+Theorem C15_from_dict_refuses_unknown : forall ds, from_dict ds = FErr (FDag EUnknownRef) <->
+  ~ bad_signature ds /\ exists p v, is_param_of ds p v /\ length ds <= p.
+Proof. exact from_dict_unknown_iff. Qed.
+Print Assumptions C15_from_dict_refuses_unknown.
+
+(** Composition [f.then(g, **g_kws)] keeps the parameters (and fixed keywords) of the INNER function whatever [g] is, so
+    replacing a definition's function by its composition changes nothing.   Example: [ex_outer_is_not_parent]. *)
+Theorem C15_then_keeps_parents : forall n g gk,
+  (get_named_parameters (CNamed (nif_then n g gk)) = get_named_parameters (CNamed n) /\ nif_kws (nif_then n g gk) = nif_kws n) /\
+  forall ds1 ds2, from_dict (ds1 ++ DLinked (CNamed (nif_then n g gk)) :: ds2) = from_dict (ds1 ++ DLinked (CNamed n) :: ds2).
+Proof. intros n g gk. split; [apply then_keeps_parameters | intros; apply from_dict_then]. Qed.
+Print Assumptions C15_then_keeps_parents.
+
+(** [C15_topological] + [C15_exact] for the graph built FROM THE DEFINITIONS: every variable is listed after everything it
+    (transitively) takes as a named parameter, and [sorted_children] / [sorted_ancestors] are exactly the transitive
+    dependents / dependencies w.r.t. "is a named parameter of", in that order.   Example: [ex_depends]. *)
+Theorem C15_from_dict_closures : forall (ds : list vdef) (r : dag), from_dict ds = FOk r ->
+  Permutation (order r) (seq 0 (length ds)) /\
+  (forall i j, depends ds i j -> before (order r) i j) /\
+  map fst (sorted_children r) = order r /\
+  map fst (sorted_ancestors r) = order r /\
+  (forall i l, In (i, l) (sorted_children r) ->
+      (exists f, l = filter f (order r)) /\ forall j, In j l <-> depends ds i j) /\
+  (forall i l, In (i, l) (sorted_ancestors r) ->
+      (exists f, l = filter f (order r)) /\ forall j, In j l <-> depends ds j i).
+Proof. exact from_dict_closures. Qed.
+Print Assumptions C15_from_dict_closures.
+
+(** The outcome depends only on WHICH names are parameters of which definition: not on their order in the signatures, not
+    on defaults, not on the way the function is written (plain / named / bound / composed).   Example: [ex_params_only_hyps]. *)
+Theorem C15_from_dict_params_only : forall ds1 ds2,
+  length ds1 = length ds2 -> (bad_signature ds1 <-> bad_signature ds2) ->
+  (forall p v, is_param_of ds1 p v <-> is_param_of ds2 p v) -> from_dict ds1 = from_dict ds2.
+Proof. exact from_dict_params_only. Qed.
+Print Assumptions C15_from_dict_params_only.
+
+(** Exactly which definitions are accepted: those with only keyword-only functions, no parameter that is no variable, no
+    variable that is its own parameter, no variable unrelated to every other, no cycle of "is a named parameter of" — the
+    property's four refusals and their converse, on the definitions.   Example: [ex_accept_defs_hyps]. *)
+Theorem C15_from_dict_accepts_iff : forall ds,
+  (exists r, from_dict ds = FOk r) <->
+  ~ bad_signature ds /\ ~ unknown_param ds /\ ~ self_param ds /\ ~ isolated_def ds /\ ~ cyclic_defs ds.
+Proof. exact from_dict_accepts_iff. Qed.
+Print Assumptions C15_from_dict_accepts_iff.
+
+(** Every refusal names a defect of the definitions; never the key-set check, never a model artefact.   Example: [ex_cyclic_defs]. *)
+Theorem C15_from_dict_error_meaning : forall ds e, from_dict ds = FErr e ->
+  (e = FSignature /\ bad_signature ds) \/ (e = FDag EUnknownRef /\ unknown_param ds) \/ (e = FDag ESelfLoop /\ self_param ds) \/
+  (e = FDag EIsolated /\ isolated_def ds) \/ (e = FDag ENotDag /\ cyclic_defs ds).
+Proof. exact from_dict_error_meaning. Qed.
+Print Assumptions C15_from_dict_error_meaning.
+
+(** The key-set check: the constructor refuses (before looking at any edge) exactly when [variables.keys()] and
+    [direct_ancestors.keys()] differ — a name that is only a key of one of them is never silently added or dropped —
+    and [from_dict] can never trip it.   Example: [ex_ctor_keys_missing], [ex_ctor_keys_extra], [ex_ctor_keys_ok]. *)
+Theorem C15_key_set_check :
+  (forall vk g, ctor vk g = FErr FKeys <-> ~ (forall x, In x vk <-> x < nnodes g)) /\
+  (forall vk g, (forall x, In x vk <-> x < nnodes g) -> ctor vk g = lift (build g)) /\
+  (forall ds, from_dict ds <> FErr FKeys).
+Proof. split; [exact ctor_keys|]. split; [exact ctor_keys_ok | exact from_dict_never_keys]. Qed.
+Print Assumptions C15_key_set_check.
+
+(** T1: the facts read from /repo on this run (accepted parameter kinds, what [then] / [bound_to] copy, which classes
+    provide [get_ancestors_names] and what they return, [from_dict], the consistency check) are the ones modelled. *)
+Theorem C15_from_dict_source : gen_source = model_source.
+Proof. exact fromdict_source_tie. Qed.
+Print Assumptions C15_from_dict_source.
+
+(** Computed on the definitions regenerated from the running code (coq/gen/GenC15Defs.v: every variable of every shipped
+    configuration's [get_variables_specs()], a NamedInputFunction by its assigned names, any other function by its signature):
+    the classes, the direct ancestors and the order of the graph literals of GenGraphs.v — the graph hypotheses other
+    properties compute with — are exactly what [from_dict] derives from those signatures. *)
+Theorem C15_shipped_definitions :
+  map fst shipped_defs = map sg_label shipped /\
+  forallb (fun p => defs_match (snd p) (snd (fst p))) (combine shipped_defs shipped) = true.
+Proof. split; vm_compute; reflexivity. Qed.
+Print Assumptions C15_shipped_definitions.
